@@ -33,6 +33,8 @@ type Case struct {
 	// ReadFirst (json only): number of NextLexeme calls made on the Document before Len is first
 	// asked (a document that has been walked, e.g. by Schema.Validate, still has the same length)
 	ReadFirst int `json:"next_lexeme_calls_before_len,omitempty"`
+	// CheckFirst: Check() is called on the object before Len() (its verdict is not used here)
+	CheckFirst bool `json:"check_before_len,omitempty"`
 }
 
 func init() {
@@ -92,6 +94,12 @@ func check(t run.TB, c Case) {
 					break
 				}
 			}
+		}()
+	}
+	if c.CheckFirst {
+		func() {
+			defer func() { _ = recover() }()
+			_ = obj.Check()
 		}()
 	}
 	l, err, p := callLen(obj)
@@ -253,6 +261,13 @@ func TestLen(t *testing.T) {
 		check(t, c)
 		run.Eval(chk, c.Tail != "", c.Kind, c.S, c.Sep, c.Tail)
 		run.Label("positive:" + c.Kind)
+		if c.Kind == "json" || c.Kind == "enum" || c.Kind == "regex" {
+			c3 := c
+			c3.CheckFirst = true
+			check(t, c3)
+			run.Eval(chk, false)
+			run.Label(c.Kind + ":len-after-check")
+		}
 		if c.Kind == "json" {
 			c2 := c
 			c2.ReadFirst = rapid.SampledFrom([]int{1, 2, 5, 1000000}).Draw(t, "readFirst")
